@@ -15,6 +15,19 @@ def analyse(repo, fn):
         st = St()
         r = I.call_key("speckit/core.py::_build_Q", [X.var("L"), X.const(order)], {}, st)
         tag = f"R6-basis[order={order}]"
+        if isinstance(r, PV) or (not isinstance(r, QROf) and not is_opaque(r)):
+            # not (only) a QR factor: the kernels compute the trend as Q (Q^T x), an orthogonal projection only if Q^T Q = I.
+            # Decide that on concrete small lengths by partial evaluation in exact arithmetic (a counterexample is a violation).
+            bad = None; proved = 0
+            for Lc in (5, 8, 11):
+                g = gram_instance(repo, Lc, order)
+                if g is None: bad = ("unknown", Lc); break
+                if g is True: proved += 1; continue
+                bad = ("violated", Lc, g); break
+            if bad and bad[0] == "violated":
+                out.append((tag, VIOLATED, f"the basis returned for L={bad[1]}, order={order} is not orthonormal: {bad[2]}; Q(Q^T x) is then not the least-squares "
+                            f"polynomial of degree {order}, so a polynomial trend is not removed exactly", fn.lineno)); continue
+            out.append((tag, UNKNOWN, f"_build_Q does not return the Q factor of a QR decomposition on every path ({r!r}); orthonormal on {proved} concrete lengths only"[:300], fn.lineno)); continue
         if not isinstance(r, QROf):
             out.append((tag, UNKNOWN, f"_build_Q does not return the Q factor of a QR decomposition: {r!r}"[:200], fn.lineno)); continue
         if r.mode != "reduced":
@@ -39,3 +52,35 @@ def analyse(repo, fn):
                 status = s_; detail = f"column {k} of the detrend basis is {col!r}, expected t^{k} with t=linspace(-1,1,L) {why}"; break
         out.append((tag, status, detail, fn.lineno))
     return out
+
+
+def gram_instance(repo, Lc, order):
+    """True if Q^T Q = I for the concrete length Lc (exact arithmetic), a description of the first wrong entry, or None if not evaluable."""
+    I = Interp(repo)
+    try:
+        r = I.call_key("speckit/core.py::_build_Q", [X.const(Lc), X.const(order)], {}, St())
+    except Exception:
+        return None
+    if isinstance(r, QROf): return True
+    A = as_arr(r) if not is_opaque(r) and not isinstance(r, PV) else None
+    if A is None or A.ndim != 2: return None
+    (nv, nc), (kv, kc) = A.axes
+    if nc.as_int() != Lc or kc.as_int() is None: return None
+    p = kc.as_int()
+    cols = []
+    for k in range(p):
+        col = []
+        for n in range(Lc):
+            v = subst_val(A.body, {nv: X.const(n), kv: X.const(k)})
+            if is_opaque(v) or isinstance(v, PV) or to_x(v) is None: return None
+            col.append(to_x(v))
+        cols.append(col)
+    for a in range(p):
+        for b in range(a, p):
+            tot = X.const(0)
+            for n in range(Lc): tot = tot + cols[a][n] * cols[b][n]
+            want = X.const(1 if a == b else 0)
+            st_, _ = compare(tot, want)
+            if st_ == VIOLATED: return f"column {a} . column {b} = {tot!r}, expected {want!r}"
+            if st_ != HOLDS: return None
+    return True
